@@ -61,6 +61,15 @@ class Overlay:
         rel = os.path.relpath(src, REPO) if src.startswith(REPO + '/') else src
         if rel in self.edits:
             return os.path.join(self.dir, rel), ['-iquote', os.path.dirname(src)]
+        # a header under src/ (not src/include) is edited: compile the unit through the mirrored tree so that its own
+        # quote-includes resolve inside the overlay as well
+        if any(r.startswith('src/') and not r.startswith('src/include/') and not r.endswith('.cpp') for r in self.edits) \
+                and rel.startswith('src/') and rel.endswith('.cpp'):
+            dst = os.path.join(self.dir, rel)
+            os.makedirs(os.path.dirname(dst), exist_ok=True)
+            if not os.path.lexists(dst):
+                os.symlink(src, dst)
+            return dst, []
         return src, []
 
 
